@@ -419,7 +419,8 @@ pub fn make_case(class: u64, idx: u64, seed: u64, quick: bool) -> Case {
         }
         5 => {
             // long runs of tiny frames on one client (state carried from frame to frame), then stamped frames
-            let n = *r.pick(&[33usize, 34, 40, 64, 65, 100, 129, 257, 300, 1000]);
+            // ... and now and then more frames than a 16-bit counter holds
+            let n = if idx % 60 == 59 { 65_536 + r.range(1, 600) as usize } else { *r.pick(&[33usize, 34, 40, 64, 65, 100, 129, 257, 300, 1000]) };
             let plen = if xl { 3 + (idx % 3) as usize } else { (idx % 3) as usize };
             let mut frames = Vec::new();
             let kinds = idx / 3 % 4; // 0: tpkt only, 1: fast-path short, 2: fast-path long, 3: mixed
